@@ -305,7 +305,8 @@ PROPS["C12"] = {
     "theorems": ["C12_failing_sink", "C12_expansion_preserves_bits"],
     "streams": [FAIL_STREAM],
     "rule": "FAIL: streams from the ENC generator (<= 1500 samples; all subframe kinds; frames precomputed (multi-thread) or not) "
-            "written to a user sink implementing only the required methods that fails at call k, k absolute 0..59 or at a "
+            "written - half of the cases as a whole stream, half as ONE COMPONENT written directly (a frame, a frame header, a subframe, "
+            "the residual of a fixed / LPC subframe; index modulo the number present) - to a user sink implementing only the required methods that fails at call k, k absolute 0..59 or at a "
             "per-mille position of the total call count incl. exactly the end. Observable: verdict (ok / err-sink / panic), number "
             "and digest of accepted calls, number of accepted bits; the stream is also written to a healthy sink before and after the failed write "
             "on the same thread (bytes must be equal). Non-trivial = failure after at least one accepted call.",
@@ -497,7 +498,7 @@ CFG_RULE = ("CFG: random configurations with 0-2 fields pushed to/over their lim
 
 PROPS["C07"] = {
     "coq": "theories/Props/C07.v",
-    "theorems": ["C07_verify_exact", "C07_verified_no_panic"],
+    "theorems": ["C07_verify_exact", "C07_verified_no_panic", "C07_verified_config_encodes", "C07_verified_config_lossless"],
     "streams": "CFG+ENC", "rule": "CFG+ENC",
     "oracle": cfg_oracle,
     "assumptions": ["PARTIAL for panics inside the floating-point estimators (NaN/inf asserts in lpc.rs): not expressible in the model, monitored on every ENC case",
@@ -708,7 +709,7 @@ def api_oracle(pid, res, driver):
                 ch, cap, bps, ln, nb = a
                 supported = 1 <= nb <= 4 and ln % nb == 0 and ln // nb <= ch * cap and (ln == 0 or nb == (bps + 7) // 8)
             elif k == "FR":
-                supported = a[0] < 2 ** 31 and a[1] == 0
+                supported = a[0] < 2 ** 31 and a[1] in (0, 6, 7)     # 6, 7: the largest / smallest value of the width (valid)
             elif k == "ST":
                 mt, rate, ch, bps, bs, n, bad = a
                 inr = bad < 0 or n == 0
@@ -730,7 +731,8 @@ API_RULE = ("API: boundary and wrap-around grid for every argument of StreamInfo
             "(FrameBuf, Context)::fill_le_bytes, encode_fixed_size_frame and encode_with_fixed_block_size in both modes: 0, min-1, min, "
             "max, max+1, 2^8+k, 2^16+k, 2^32+k, usize::MAX for rate / channels / width / block size / frame number; fills of exactly, one "
             "more than and a channel more than the capacity; byte widths 0..6 against the declared width; lengths off by one; an "
-            "out-of-range sample at a random position. Verdict ok / err / panic / hang (15 s). Non-trivial = a rejection.")
+            "out-of-range sample at a random position (far out, max+1, min-1, i32::MIN, i32::MAX) and the valid extremes max / min of the width. "
+            "Verdict ok / err / panic / hang (15 s). Non-trivial = a rejection.")
 
 PROPS["C17"] = {
     "coq": "theories/Props/C17.v",
